@@ -995,8 +995,34 @@ def truc_rule_table(ctx, crate):
             ctx.add(['C18'], 'H-SERDE', R + ty, '%s: serde impls %s (derived: %s), serde attributes: %s' % (ty, sorted(dirs), derived, attrs), key='%s|serde' % ty)
         else:
             ctx.inst('H-SERDE', '%s derives Serialize and Deserialize, no #[serde(..)] attribute' % ty)
+    # … and the derived code treats every field as mandatory in both directions (a `#[serde(skip…, default…)]`
+    # on a field leaves the type-level attributes untouched but makes the JSON form lossy)
+    for ty in ('TypeInfo', 'DynamicTypeInfo'):
+        adt = crate.adts.get(R + ty)
+        if adt is None or not adt.get('variants'):
+            continue
+        nf = len(adt['variants'][0]['fields'])
+        ser = [x for x in crate.bodies if x.path.endswith('<impl serde_core::ser::Serialize for %s>::serialize' % (R + ty))]
+        des = [x for x in crate.bodies if ('<impl serde_core::de::Deserialize<\'de> for %s>::deserialize::__Visitor' % (R + ty)) in x.path]
+        if len(ser) != 1 or not des:
+            ctx.add(['C18'], 'H-SERDE', R + ty, '%s: cannot find the derived serialize / visitor bodies (%d, %d)' % (ty, len(ser), len(des)), key='%s|derived-bodies' % ty)
+            continue
+        sb = ser[0]
+        fld = [(bb, tm) for bb, tm in sb.calls() if (callee_decl_path(tm) or '').endswith('SerializeStruct::serialize_field')]
+        skip = [(bb, tm) for bb, tm in sb.calls() if (callee_decl_path(tm) or '').endswith('SerializeStruct::skip_field')]
+        end = [bb for bb, tm in sb.calls() if (callee_decl_path(tm) or '').endswith('SerializeStruct::end')]
+        dom = sb.dominators(unwind=False)
+        always = [bb for bb, _ in fld if all(bb in dom.get(e, set()) for e in end)]
+        missing = sum(1 for x in des for _, tm in x.calls() if (callee_path(tm) or callee_decl_path(tm) or '').endswith('de::missing_field'))
+        short = sum(1 for x in des for _, tm in x.calls() if (callee_decl_path(tm) or '').endswith('de::Error::invalid_length'))
+        if skip or len(fld) != nf or len(always) != nf or len(end) != 1:
+            ctx.add(['C18'], 'H-SERDE', sb.key, '%s: the derived serializer writes %d of its %d fields on every path (%d conditional, %d skip_field): an entry does not come back from its JSON form as it was registered' % (ty, len(always), nf, len(fld) - len(always), len(skip)), key='%s|ser-fields' % ty)
+        elif missing != nf or short != nf:
+            ctx.add(['C18'], 'H-SERDE', R + ty, '%s: the derived deserializer reports a missing field for %d of its %d fields (short sequence: %d): an absent field is silently replaced by a default' % (ty, missing, nf, short), key='%s|de-fields' % ty)
+        else:
+            ctx.inst('H-SERDE', '%s: all %d fields written unconditionally; all %d required when reading (map and sequence form)' % (ty, nf, nf))
     ctx.floor(['C18'], 'H-TABLE', 4)
-    ctx.floor(['C18'], 'H-SERDE', 2)
+    ctx.floor(['C18'], 'H-SERDE', 4)
 
 
 # -- C03: who writes offsets, and whose ------------------------------------
